@@ -1450,8 +1450,8 @@ where
             // We just finished a sequence.
             sequences.push(LineSequence {
                 // In theory one could have multiple DW_LNE_end_sequence instructions
-                // in a row.
-                start: sequence_start_addr.unwrap_or(0),
+                // in a row. Then the end row is also the first row of the sequence.
+                start: sequence_start_addr.unwrap_or(sequence_end_addr),
                 end: sequence_end_addr,
                 instructions: instructions.remove_trailing(&rows.instructions)?,
             });
